@@ -1,66 +1,86 @@
-(* C20 - the checks that rest on "the same expression" (14 19 20) and on key strings (5) against their patterns,
-   under the guards outside of which the code deviates (see the *_refuted witnesses in Properties/C20.v). *)
-From Coq Require Import List NArith ZArith Bool Arith Lia.
+(* C20 - the checks that rest on "the same expression" (14 19 20) and on key strings (5) against their patterns:
+   for every variant of the model under the guards outside of which the code as found deviates (see the witnesses in
+   Properties/C20.v), and without those guards for the repaired variants ([fx_parens], [fx_nil_loc], [fx_name14],
+   [fx_str_key], [fx_int_key] = true). *)
+From Coq Require Import List NArith ZArith Bool Arith Lia ZifyN ZifyNat ZifyBool.
 From LH Require Import Base.Bytes Model.Lexer Model.Ast Model.Parser Spec.PatternSpec Model.Patterns
   Proofs.PatternsLocal Proofs.PatternsCompExp Proofs.PatternsClasses.
 Import ListNotations.
 Local Open Scope N_scope.
 
+(* a repair that needs another one: 14 asks CompExp only once CompExp skips grouping parentheses
+   (C20-t14-name-collision is applied on top of C20-parens; `(a) == a` stays reported) *)
+Definition fixes_ok (fx : fixes) : Prop := fx_name14 fx = true -> fx_parens fx = true.
+
+(* an expression of the source text: BadExpr stands for a syntax error; the Locs of source text start at line 1 *)
+Definition real_loc (e : exp) : Prop := is_bad e = false /\ exp_loc e <> zero_loc.
+
+(* ------------------------------------------------------------------ grouping parentheses *)
+(* without grouping parentheses: strip e = e *)
+Definition paren_free (e : exp) : Prop := has_parens e = false.
+
+Definition has_parens_args : list exp -> bool :=
+  fix go (l : list exp) : bool := match l with [] => false | x :: r => has_parens x || go r end.
+
+Lemma strip_args_free args :
+  Forall (fun x => paren_free x -> strip x = x) args -> has_parens_args args = false -> map strip args = args.
+Proof.
+  induction 1 as [|x r Hx HF IH]; intros Hp; [reflexivity|].
+  cbn [has_parens_args] in Hp. apply orb_false_iff in Hp as [Hp1 Hp2].
+  cbn [map]. rewrite (Hx Hp1), (IH Hp2). reflexivity.
+Qed.
+
+Lemma strip_paren_free e : paren_free e -> strip e = e.
+Proof.
+  unfold paren_free. induction e using exp_ind_e; intros Hp.
+  - destruct e; cbn in H; try contradiction; reflexivity.
+  - cbn in Hp |- *. rewrite IHe; auto.
+  - cbn in Hp |- *. apply orb_false_iff in Hp as [H1 H2]. rewrite IHe1, IHe2; auto.
+  - cbn in Hp. discriminate.
+  - cbn in Hp |- *. apply orb_false_iff in Hp as [H1 H2]. rewrite IHe1, IHe2; auto.
+  - change (has_parens (ECall e nm args l)) with (has_parens e || has_parens_args args) in Hp.
+    apply orb_false_iff in Hp as [H1 H2].
+    cbn [strip]. rewrite IHe; auto. rewrite strip_args_free; auto.
+Qed.
+
+(* skipParens of the model = the specification's removal of grouping parentheses *)
+Lemma strip_p_strip e : strip_p e = strip e.
+Proof. reflexivity. Qed.    (* the two are written down independently, and are the same function *)
+
 Section Guarded.
+  Variable fx : fixes.
   Variable fclose : list N -> list N -> bool.
 
   (* ---------------------------------------------------------------- "the same" is decided by same_b *)
   Lemma same_b_iff a b : same_b fclose a b = true <-> Same fclose a b.
   Proof. unfold same_b, Same. rewrite <- comp_exp_sim_b. apply comp_exp_characterisation. Qed.
 
-  (* ---------------------------------------------------------------- without grouping parentheses: strip e = e *)
-  Definition paren_free (e : exp) : Prop := has_parens e = false.
-
-  Definition has_parens_args : list exp -> bool :=
-    fix go (l : list exp) : bool := match l with [] => false | x :: r => has_parens x || go r end.
-  Definition strip_args : list exp -> list exp :=
-    fix go (xs : list exp) : list exp :=
-      match xs with
-      | [] => []
-      | x :: r =>
-        match r with
-        | [] => [match x with
-                 | EParens y l' => if is_multi y then EParens (strip y) l' else strip y
-                 | _ => strip x
-                 end]
-        | _ => strip x :: go r
-        end
-      end.
-
-  Lemma strip_args_free args :
-    Forall (fun x => paren_free x -> strip x = x) args -> has_parens_args args = false -> strip_args args = args.
-  Proof.
-    induction 1 as [|x r Hx HF IH]; intros Hp; [reflexivity|].
-    cbn [has_parens_args] in Hp. apply orb_false_iff in Hp as [Hp1 Hp2].
-    cbn [strip_args]. destruct r as [|y r'].
-    - destruct x; try (rewrite (Hx Hp1); reflexivity). cbn in Hp1. discriminate.
-    - rewrite (Hx Hp1). f_equal. apply IH. exact Hp2.
-  Qed.
-
-  Lemma strip_paren_free e : paren_free e -> strip e = e.
-  Proof.
-    unfold paren_free. induction e using exp_ind_e; intros Hp.
-    - destruct e; cbn in H; try contradiction; reflexivity.
-    - cbn in Hp |- *. rewrite IHe; auto.
-    - cbn in Hp |- *. apply orb_false_iff in Hp as [H1 H2]. rewrite IHe1, IHe2; auto.
-    - cbn in Hp. discriminate.
-    - cbn in Hp |- *. apply orb_false_iff in Hp as [H1 H2]. rewrite IHe1, IHe2; auto.
-    - change (has_parens (ECall e nm args l)) with (has_parens e || has_parens_args args) in Hp.
-      apply orb_false_iff in Hp as [H1 H2].
-      change (strip (ECall e nm args l)) with (ECall (strip e) nm (strip_args args) l).
-      rewrite IHe; auto. rewrite strip_args_free; auto.
-  Qed.
-
   Lemma same_comp_paren_free a b :
     paren_free a -> paren_free b -> (Same fclose a b <-> comp_exp fclose a b = true).
   Proof.
     intros Ha Hb. rewrite <- same_b_iff. unfold same_b.
     rewrite (strip_paren_free _ Ha), (strip_paren_free _ Hb), <- comp_exp_sim_b. tauto.
+  Qed.
+
+  (* CompExp of the code as found *)
+  Lemma cmp_before a b : fx_parens fx = false -> cmp fx fclose a b = comp_exp fclose a b.
+  Proof. intros H. unfold cmp. rewrite H. reflexivity. Qed.
+
+  (* CompExp after C20-parens = "the same" of the specification *)
+  Lemma cmp_fixed a b : fx_parens fx = true -> (cmp fx fclose a b = true <-> Same fclose a b).
+  Proof.
+    intros H. unfold cmp. rewrite H. change (comp_exp fclose (strip a) (strip b) = true <-> Same fclose a b).
+    rewrite <- same_b_iff. reflexivity.
+  Qed.
+
+  (* either way on expressions without grouping parentheses *)
+  Lemma cmp_paren_free a b : paren_free a -> paren_free b -> (cmp fx fclose a b = true <-> Same fclose a b).
+  Proof.
+    intros Ha Hb. unfold cmp. destruct (fx_parens fx).
+    - change (comp_exp fclose (strip a) (strip b) = true <-> Same fclose a b).
+      rewrite (strip_paren_free _ Ha), (strip_paren_free _ Hb).
+      symmetry. apply same_comp_paren_free; auto.
+    - symmetry. apply same_comp_paren_free; auto.
   Qed.
 
   (* ---------------------------------------------------------------- 20 *)
@@ -74,34 +94,96 @@ Section Guarded.
 
   Lemma t20_iff_guarded vars es l L :
     Forall paren_free vars -> Forall paren_free es ->
-    (reported 20 L (assign_checks fclose vars es l) <-> Pattern20 fclose vars es /\ L = l).
+    (reported 20 L (assign_checks fx fclose vars es l) <-> Pattern20 fclose vars es /\ L = l).
   Proof.
     intros Gv Ge. rewrite t20_iff. unfold Pattern20. rewrite Forall_forall in Gv, Ge.
     split; intros [H HL]; split; auto; eapply Forall2_impl_in; try exact H; intros x y Hx Hy Hxy;
-      apply (same_comp_paren_free x y (Gv x Hx) (Ge y Hy)); auto.
+      apply (cmp_paren_free x y (Gv x Hx) (Ge y Hy)); auto.
+  Qed.
+
+  (* after C20-parens: no guard *)
+  Lemma t20_iff_fixed vars es l L :
+    fx_parens fx = true ->
+    (reported 20 L (assign_checks fx fclose vars es l) <-> Pattern20 fclose vars es /\ L = l).
+  Proof.
+    intros Hp. rewrite t20_iff. unfold Pattern20.
+    split; intros [H HL]; split; auto; eapply Forall2_impl_in; try exact H; intros x y Hx Hy Hxy;
+      apply (cmp_fixed x y Hp); auto.
   Qed.
 
   (* ---------------------------------------------------------------- 19 *)
-  Lemma t19_iff_guarded elses es L :
-    real_conds elses es = es ->                      (* no else branch: no synthetic condition *)
-    Forall paren_free es -> Forall located es ->
-    (reported 19 L (if_checks fclose es)
-     <-> exists j c, Pattern19 fclose es j /\ nth_error es j = Some c /\ L = exp_loc c).
+  (* the loop, for any list of conditions, in terms of "the same" *)
+  Lemma t19_iff_same es L :
+    (forall a b, In a es -> In b es -> (cmp fx fclose a b = true <-> Same fclose a b)) ->
+    (reported 19 L (if_checks fx fclose es)
+     <-> exists j c, Pattern19 fclose es j /\ nth_error es j = Some c /\ L = get_exp_loc fx c).
   Proof.
-    intros _ Gp Gl. rewrite t19_iff. unfold Pattern19. rewrite Forall_forall in Gp, Gl. split.
-    - intros [j [c [Hj [HL [i [c' [Hlt [Hi Hc]]]]]]]].
+    intros Hc. rewrite t19_iff. unfold Pattern19. split.
+    - intros [j [c [Hj [HL [i [c' [Hlt [Hi Hcc]]]]]]]].
       exists j, c. split; [|split; auto].
-      + exists c. split; auto. exists i, c'. split; [exact Hlt|]. split; [exact Hi|].
-        apply (same_comp_paren_free c' c); [apply Gp; eapply nth_error_In; eauto|apply Gp; eapply nth_error_In; eauto|].
-        exact Hc.
-      + destruct (Gl c) as [G1 _]; [eapply nth_error_In; eauto|]. congruence.
+      exists c. split; auto. exists i, c'. split; [exact Hlt|]. split; [exact Hi|].
+      apply Hc; [eapply nth_error_In; eauto|eapply nth_error_In; eauto|exact Hcc].
     - intros [j [c [[c0 [Hj0 [i [c' [Hlt [Hi Hs]]]]]] [Hj HL]]]].
       assert (c0 = c) by congruence. subst c0.
       exists j, c. repeat split; auto.
-      + destruct (Gl c) as [G1 _]; [eapply nth_error_In; eauto|]. congruence.
-      + exists i, c'. split; [exact Hlt|]. split; [exact Hi|].
-        apply (same_comp_paren_free c' c); [apply Gp; eapply nth_error_In; eauto|apply Gp; eapply nth_error_In; eauto|].
-        exact Hs.
+      exists i, c'. split; [exact Hlt|]. split; [exact Hi|].
+      apply Hc; [eapply nth_error_In; eauto|eapply nth_error_In; eauto|exact Hs].
+  Qed.
+
+  Lemma t19_iff_guarded elses es L :
+    real_conds elses es = es ->                      (* no else branch: no synthetic condition *)
+    Forall paren_free es -> Forall (located fx) es ->
+    (reported 19 L (if_checks fx fclose es)
+     <-> exists j c, Pattern19 fclose es j /\ nth_error es j = Some c /\ L = exp_loc c).
+  Proof.
+    intros _ Gp Gl. rewrite t19_iff_same.
+    - rewrite Forall_forall in Gl. split; intros [j [c [HP [Hj HL]]]]; exists j, c; repeat split; auto;
+        destruct (Gl c (nth_error_In _ _ Hj)) as [G1 _]; congruence.
+    - rewrite Forall_forall in Gp. intros a b Ha Hb. apply cmp_paren_free; auto.
+  Qed.
+
+  (* after C20-parens: any conditions *)
+  Lemma t19_iff_fixed es L :
+    fx_parens fx = true ->
+    (reported 19 L (if_checks fx fclose es)
+     <-> exists j c, Pattern19 fclose es j /\ nth_error es j = Some c /\ L = get_exp_loc fx c).
+  Proof. intros Hp. apply t19_iff_same. intros a b _ _. apply cmp_fixed. exact Hp. Qed.
+
+  (* the conditions the code compares after C20-t19-else = the conditions written in the source *)
+  Lemma has_else_synthetic elses es : has_else elses es = synthetic_else elses (last es (ENil zero_loc)).
+  Proof. reflexivity. Qed.
+  Lemma conds_of_fixed elses es : fx_else fx = true -> conds_of fx elses es = real_conds elses es.
+  Proof. intros H. unfold conds_of, real_conds. rewrite H, has_else_synthetic. reflexivity. Qed.
+  Lemma conds_of_before elses es : fx_else fx = false -> conds_of fx elses es = es.
+  Proof. intros H. unfold conds_of. rewrite H. reflexivity. Qed.
+
+  (* GetExpLoc after C20-nil-loc: the node's own Loc, for every expression of the source *)
+  Lemma get_exp_loc_fixed e : fx_nil_loc fx = true -> is_bad e = false -> get_exp_loc fx e = exp_loc e.
+  Proof. intros H Hb. destruct e; cbn in Hb |- *; try reflexivity; try discriminate. rewrite H. reflexivity. Qed.
+  Lemma located_fixed e : fx_nil_loc fx = true -> (located fx e <-> real_loc e).
+  Proof.
+    intros H. unfold located, real_loc. split.
+    - intros [H1 H2]. split; auto. destruct e; auto. cbn in H1, H2. congruence.
+    - intros [H1 H2]. split; auto. apply get_exp_loc_fixed; auto.
+  Qed.
+
+  (* the whole check of an if statement (local_pre) after the three repairs that touch it *)
+  Lemma t19_node_fixed elses es bs l L :
+    fx_else fx = true -> fx_parens fx = true -> fx_nil_loc fx = true ->
+    Forall (fun c => is_bad c = false) es ->
+    (reported 19 L (local_pre fx fclose elses (NS (SIf es bs l)))
+     <-> exists j c, Pattern19 fclose (real_conds elses es) j /\ nth_error (real_conds elses es) j = Some c /\
+                     L = exp_loc c).
+  Proof.
+    intros He Hp Hn Hb. cbn [local_pre]. rewrite (conds_of_fixed _ _ He), (t19_iff_fixed _ _ Hp).
+    assert (Hsub : forall c, In c (real_conds elses es) -> In c es).
+    { unfold real_conds. destruct (synthetic_else _ _); auto. intros c Hc.
+      destruct es as [|x r]; [destruct Hc|].
+      rewrite (app_removelast_last (ENil zero_loc) (l := x :: r)) by discriminate.
+      apply in_or_app. left. exact Hc. }
+    rewrite Forall_forall in Hb.
+    split; intros [j [c [HP [Hj HL]]]]; exists j, c; repeat split; auto;
+      rewrite (get_exp_loc_fixed c Hn (Hb c (Hsub c (nth_error_In _ _ Hj)))) in *; auto.
   Qed.
 
   (* ---------------------------------------------------------------- 14 *)
@@ -127,7 +209,7 @@ Section Guarded.
     - destruct a; cbn in H; try contradiction; reflexivity.
     - reflexivity.
     - reflexivity.
-    - cbn [strip exp_name]. auto.
+    - cbn [strip]. destruct (is_multi (strip a)); cbn [exp_name]; auto.
     - cbn [strip exp_name]. rewrite IHa1, IHa2. reflexivity.
     - reflexivity.
   Qed.
@@ -139,29 +221,33 @@ Section Guarded.
   Qed.
 
   Lemma check14_iff op e1 e2 L :
-    reported 14 L (check14 op e1 e2)
+    reported 14 L (check14 fx fclose op e1 e2)
     <-> CmpOp op /\ has_hash (exp_name e1) = false /\ has_hash (exp_name e2) = false /\
-        exp_name e1 = exp_name e2 /\ has_place e1 /\ has_place e2 /\ L = operands_loc e1 e2.
+        exp_name e1 = exp_name e2 /\ (fx_name14 fx = true -> cmp fx fclose e1 e2 = true) /\
+        has_place fx e1 /\ has_place fx e2 /\ L = operands_loc fx e1 e2.
   Proof.
     unfold check14. rewrite <- cmp_op_iff.
     destruct (cmp_op op); [|split; [intros H; exfalso; eapply reported_nil; eauto|intros [H _]; discriminate]].
     destruct (has_hash (exp_name e1)); [split; [intros H; exfalso; eapply reported_nil; eauto|intros [_ [H _]]; discriminate]|].
     destruct (has_hash (exp_name e2)); [split; [intros H; exfalso; eapply reported_nil; eauto|intros [_ [_ [H _]]]; discriminate]|].
-    rewrite reported_if, reported_one, andb_true_iff, beq_bytes_eq, both_placed_iff. cbn [r_ty r_loc t_sameexp].
-    intuition congruence.
+    rewrite reported_if, reported_one, !andb_true_iff, beq_bytes_eq, both_placed_iff. cbn [r_ty r_loc t_sameexp].
+    destruct (fx_name14 fx); intuition congruence.
   Qed.
 
   (* completeness: identical operands that HAVE an internal name are reported *)
   Lemma t14_complete op e1 e2 l :
-    Pattern14 fclose op e1 e2 -> has_hash (exp_name e1) = false -> has_place e1 -> has_place e2 ->
-    reported 14 (operands_loc e1 e2) (binop_checks op e1 e2 l).
+    fixes_ok fx ->
+    Pattern14 fclose op e1 e2 -> has_hash (exp_name e1) = false -> has_place fx e1 -> has_place fx e2 ->
+    reported 14 (operands_loc fx e1 e2) (binop_checks fx fclose op e1 e2 l).
   Proof.
-    intros [Hop Hs] Hh H1 H2. apply binop_checks_14, check14_iff.
-    pose proof (same_name _ _ Hs) as Hn. repeat split; auto. rewrite <- Hn. exact Hh.
+    intros Hok [Hop Hs] Hh H1 H2. apply binop_checks_14, check14_iff.
+    pose proof (same_name _ _ Hs) as Hn. repeat split; auto.
+    - rewrite <- Hn. exact Hh.
+    - intros H14. apply cmp_fixed; auto.
   Qed.
 
-  (* soundness needs operands whose name determines them: access paths  a, a.b, a["b"].c, ("s").x  built from names
-     and identifier-like strings *)
+  (* soundness before C20-t14-name-collision needs operands whose name determines them: access paths
+     a, a.b, a["b"].c, ("s").x  built from names and identifier-like strings *)
   Definition ident (s : list N) : bool := forallb is_ident_char s.
   Fixpoint path (e : exp) : bool :=
     match e with
@@ -210,6 +296,17 @@ Section Guarded.
       apply N.eqb_eq in Hq. subst. contradiction.
   Qed.
 
+  (* a path is no call / `...`: all its parentheses are grouping parentheses *)
+  Lemma path_strip_not_multi e : path e = true -> is_multi (strip e) = false.
+  Proof.
+    induction e using exp_ind_e; try (cbn; discriminate).
+    - destruct e; cbn in H; try contradiction; cbn; auto; discriminate.
+    - cbn [path strip]. intros Hp. rewrite (IHe Hp). apply IHe; auto.
+    - intros _. reflexivity.
+  Qed.
+  Lemma path_strip_parens x l : path x = true -> strip (EParens x l) = strip x.
+  Proof. intros Hp. cbn [strip]. rewrite (path_strip_not_multi _ Hp). reflexivity. Qed.
+
   (* the name of a path: an atom, then ".field" for every access *)
   Lemma path_name_same a b :
     path a = true -> path b = true -> exp_name a = exp_name b -> same_b fclose a b = true.
@@ -224,7 +321,7 @@ Section Guarded.
           -- subst. cbn. apply beq_bytes_eq. reflexivity.
           -- exfalso. subst s. revert Ha. unfold ident. cbn [forallb]. rewrite andb_true_iff. intros [Hc _].
              cbn in Hc. discriminate.
-        * cbn [strip]. apply IHb0; auto.
+        * cbn [path] in Hb. rewrite (path_strip_parens _ _ Hb). apply IHb0; auto.
         * exfalso. cbn [path] in Hb. destruct b0_2; try discriminate. cbn [exp_name] in Hn.
           eapply (ident_notin s 46); [exact Ha|reflexivity|]. rewrite Hn. apply in_or_app. right. left. reflexivity.
       + (* name atom *)
@@ -233,13 +330,13 @@ Section Guarded.
           -- exfalso. subst s. revert Hb. unfold ident. cbn [forallb]. rewrite andb_true_iff. intros [Hc _].
              cbn in Hc. discriminate.
           -- inversion Hn; subst. cbn. apply beq_bytes_eq. reflexivity.
-        * cbn [strip]. apply IHb0; auto.
+        * cbn [path] in Hb. rewrite (path_strip_parens _ _ Hb). apply IHb0; auto.
         * exfalso. cbn [path] in Hb. destruct b0_2; try discriminate. cbn [exp_name] in Hn.
           apply andb_true_iff in Hb as [Hb1 Hb2].
           assert (Hin : In 46 (33 :: n)) by (rewrite Hn; apply in_or_app; right; left; reflexivity).
           destruct Hin as [Hin|Hin]; [discriminate|]. revert Hin. apply ident_notin; auto.
     - (* parentheses on the left *)
-      cbn [path] in Ha. intros Hb Hn. cbn [strip]. apply IHa; auto.
+      cbn [path] in Ha. intros Hb Hn. rewrite (path_strip_parens _ _ Ha). apply IHa; auto.
     - (* a.field *)
       cbn [path] in Ha. destruct a2; try discriminate. apply andb_true_iff in Ha as [Ha1 Ha2].
       clear IHa2. intros Hb Hn. cbn [exp_name] in Hn.
@@ -248,7 +345,7 @@ Section Guarded.
         -- eapply (ident_notin s0 46); [exact Hb|reflexivity|]. rewrite <- Hn. apply in_or_app. right. left. reflexivity.
         -- assert (Hin : In 46 (33 :: n)) by (rewrite <- Hn; apply in_or_app; right; left; reflexivity).
            destruct Hin as [Hin|Hin]; [discriminate|]. revert Hin. apply ident_notin; auto.
-      * cbn [strip path exp_name] in *. apply IHb0; auto.
+      * cbn [path] in Hb. rewrite (path_strip_parens _ _ Hb). cbn [exp_name] in Hn. apply IHb0; auto.
       * cbn [path] in Hb. destruct b0_2; try discriminate. apply andb_true_iff in Hb as [Hb1 Hb2].
         cbn [exp_name] in Hn. apply app_sep_split in Hn as [Hn1 Hn2];
           [|apply ident_notin; auto|apply ident_notin; auto].
@@ -258,18 +355,45 @@ Section Guarded.
   Qed.
 
   Lemma t14_iff_guarded op e1 e2 l L :
-    path e1 = true -> path e2 = true -> located e1 -> located e2 ->
-    (reported 14 L (binop_checks op e1 e2 l)
+    fixes_ok fx ->
+    path e1 = true -> path e2 = true -> located fx e1 -> located fx e2 ->
+    (reported 14 L (binop_checks fx fclose op e1 e2 l)
      <-> Pattern14 fclose op e1 e2 /\ L = span (exp_loc e1) (exp_loc e2)).
   Proof.
-    intros P1 P2 G1 G2. rewrite binop_checks_14, check14_iff, (located_operands _ _ G1 G2).
-    pose proof (located_has_place _ G1) as Hp1. pose proof (located_has_place _ G2) as Hp2.
+    intros Hok P1 P2 G1 G2. rewrite binop_checks_14, check14_iff, (located_operands _ _ _ G1 G2).
+    pose proof (located_has_place _ _ G1) as Hp1. pose proof (located_has_place _ _ G2) as Hp2.
     pose proof (proj2 (has_hash_false_iff _) (path_name_chars _ P1)) as Hh1.
     pose proof (proj2 (has_hash_false_iff _) (path_name_chars _ P2)) as Hh2.
     unfold Pattern14. split.
-    - intros [Hop [_ [_ [Hn [_ [_ HL]]]]]]. split; [split; [exact Hop|]|exact HL].
+    - intros [Hop [_ [_ [Hn [_ [_ [_ HL]]]]]]]. split; [split; [exact Hop|]|exact HL].
       apply same_b_iff. apply path_name_same; auto.
     - intros [[Hop Hs] HL]. split; [exact Hop|]. split; [exact Hh1|]. split; [exact Hh2|].
-      split; [apply same_name; exact Hs|]. auto.
+      split; [apply same_name; exact Hs|]. split; [intros H14; apply cmp_fixed; auto|]. auto.
   Qed.
+
+  (* after C20-parens + C20-t14-name-collision: for all operands, exact up to the operands without internal name *)
+  Lemma t14_iff_fixed op e1 e2 l L :
+    fx_parens fx = true -> fx_name14 fx = true -> located fx e1 -> located fx e2 ->
+    (reported 14 L (binop_checks fx fclose op e1 e2 l)
+     <-> Pattern14 fclose op e1 e2 /\ has_hash (exp_name e1) = false /\ L = span (exp_loc e1) (exp_loc e2)).
+  Proof.
+    intros Hp H14 G1 G2. rewrite binop_checks_14, check14_iff, (located_operands _ _ _ G1 G2).
+    pose proof (located_has_place _ _ G1) as Hp1. pose proof (located_has_place _ _ G2) as Hp2.
+    unfold Pattern14. split.
+    - intros [Hop [Hh1 [_ [_ [Hc [_ [_ HL]]]]]]]. split; [split; [exact Hop|]|split; [exact Hh1|exact HL]].
+      apply (cmp_fixed _ _ Hp). auto.
+    - intros [[Hop Hs] [Hh1 HL]]. pose proof (same_name _ _ Hs) as Hn.
+      split; [exact Hop|]. split; [exact Hh1|]. split; [rewrite <- Hn; exact Hh1|].
+      split; [exact Hn|]. split; [intros _; apply cmp_fixed; auto|]. auto.
+  Qed.
+
+  (* ---------------------------------------------------------------- 15 16 after C20-nil-loc *)
+  Lemma t15_iff_fixed op e1 e2 l L :
+    fx_nil_loc fx = true -> real_loc e1 -> real_loc e2 ->
+    (reported 15 L (binop_checks fx fclose op e1 e2 l) <-> Pattern15 op e1 e2 /\ L = span (exp_loc e1) (exp_loc e2)).
+  Proof. intros H G1 G2. apply t15_iff_guarded; apply located_fixed; auto. Qed.
+  Lemma t16_iff_fixed op e1 e2 l L :
+    fx_nil_loc fx = true -> real_loc e1 -> real_loc e2 ->
+    (reported 16 L (binop_checks fx fclose op e1 e2 l) <-> Pattern16 op e1 e2 /\ L = span (exp_loc e1) (exp_loc e2)).
+  Proof. intros H G1 G2. apply t16_iff_guarded; apply located_fixed; auto. Qed.
 End Guarded.
